@@ -52,3 +52,16 @@ func HarnessSent(p *Peer) []wire.Message {
 
 // HarnessDisconnected reports whether Disconnect was called on the peer.
 func HarnessDisconnected(p *Peer) bool { return p.disconnect != 0 }
+
+// HarnessPeerWith returns a connected peer of the given direction and address whose version is known
+// (the server learns about a peer from its OnVersion callback).
+func HarnessPeerWith(log *zerolog.Logger, inbound bool, addr string, id int32) *Peer {
+	p := newPeerBase(&Config{Log: log}, inbound)
+	p.conn = &harnessConn{}
+	p.addr = addr
+	p.connected = 1
+	p.versionKnown = true
+	p.id = id
+	p.na = &wire.NetAddress{}
+	return p
+}
